@@ -18,7 +18,7 @@ open Tmv Tmv.Mempool
 inductive Req
   | first (tx : Bytes) (v : Verdict)     -- CheckTxType_New with the verdict the app will give
   | recheck (tx : Bytes)                 -- CheckTxType_Recheck
-deriving Repr
+deriving Repr, DecidableEq
 
 structure AState where
   s : State
@@ -113,11 +113,48 @@ def astep (a : AState) : AOp → AState
 
 def arun (a : AState) (ops : List AOp) : AState := ops.foldl astep a
 
-/-- `RemoveTxByKey(key)` — public, takes no lock, leaves the recheck cursor alone. Outside the
-asynchronous discipline proved about (`AOpF`); modelled only for entries other than the one under
-the cursor (a removed element under the cursor dangles, which this representation cannot express). -/
+/-- `RemoveTxByKey(key)` — public, takes no lock, leaves the recheck cursor alone. Faithful as long
+as the removed entry is not the one under the cursor (a removed element under the cursor dangles,
+which this representation cannot express; excluded by `Allowed`). -/
 def aremoveByKey (a : AState) (tx : Bytes) : AState :=
-  if tx ∈ a.s.txsMap ∧ a.cursor ≠ some tx then { a with s := removeTx a.s tx false } else a
+  if tx ∈ a.s.txsMap then { a with s := removeTx a.s tx false } else a
+
+/-- `Flush()` — leaves queue and recheck cursor alone (faithful only when no recheck answer is
+pending: otherwise the cursor dangles; excluded by `Allowed`) -/
+def aflush (a : AState) : AState := { a with s := flush a.s }
+
+/-- every operation on the pool over the asynchronous client -/
+inductive AOpG
+  | send (tx : Bytes) (v : Verdict)
+  | deliver
+  | update (h : Int) (block : List (Bytes × Nat)) (pre post : Option Int) (rv : Bytes → Verdict)
+  | removeByKey (tx : Bytes)
+  | flush
+
+def astepG (a : AState) : AOpG → AState
+  | .send tx v => (asend a tx v).1
+  | .deliver => adeliver a
+  | .update h b pre post rv => aupdate a h b pre post rv
+  | .removeByKey tx => aremoveByKey a tx
+  | .flush => aflush a
+
+def Req.isRecheckOf (tx : Bytes) : Req → Bool
+  | .recheck t => decide (t = tx)
+  | .first _ _ => false
+
+/-- THE DISCIPLINE: `RemoveTxByKey(k)` only while no recheck answer for `k` is pending, `Flush` only
+while no recheck answer at all is pending; everything else is free. -/
+def Allowed (a : AState) : AOpG → Prop
+  | .removeByKey tx => ∀ r ∈ a.queue, r.isRecheckOf tx = false
+  | .flush => ∀ r ∈ a.queue, (match r with | .recheck _ => False | .first _ _ => True)
+  | _ => True
+
+/-- a history that respects the discipline at every step -/
+def Disciplined : AState → List AOpG → Prop
+  | _, [] => True
+  | a, o :: r => Allowed a o ∧ Disciplined (astepG a o) r
+
+def arunG (a : AState) (ops : List AOpG) : AState := ops.foldl astepG a
 
 /-- the scenario of the `hazard kind=remove` stream: entries a,b,c admitted, `Update` queues their
 rechecks (c will be rejected), `RemoveTxByKey(b)`, then all answers are handled -/
